@@ -77,7 +77,7 @@ func init() {
 			}
 		},
 		Sections: func(tier core.Tier, seed int64) []core.Section {
-			n, nf := 2500, 800
+			n, nf := 8000, 2400
 			if tier == core.Thorough {
 				n, nf = 60000, 20000
 			}
